@@ -64,6 +64,41 @@ func (vc *VC) resultType(sig *types.Signature) types.Type {
 }
 
 func (fr *Frame) callWith(st *State, c *ssa.CallCommon, args []Val, site ssa.Instruction) Val {
+	res := fr.callWith0(st, c, args, site)
+	// remember the result of counted calls: last(Label) in specifications
+	if len(fr.vc.labels) > 0 {
+		key := ""
+		if c.IsInvoke() {
+			key = ifaceMethodKey(c)
+		} else if f, ok := c.Value.(*ssa.Function); ok {
+			if f.Origin() != nil {
+				f = f.Origin()
+			}
+			key = funcKey(f)
+		}
+		for _, lab := range fr.vc.p.countOf[key] {
+			if !fr.vc.labels[lab] {
+				continue
+			}
+			lay := fr.vc.p.lay.of(fr.vc.resultType(c.Signature()))
+			if len(lay.Kinds) != len(res.S) {
+				continue
+			}
+			if fr.vc.lastType == nil {
+				fr.vc.lastType = map[string]types.Type{}
+			}
+			fr.vc.lastType[lab] = fr.vc.resultType(c.Signature())
+			for i, k := range lay.Kinds {
+				gk := fmt.Sprintf("g.last.%s:%d", lab, i)
+				fr.vc.ensureKey(gk, k.Sort())
+				st.v[gk] = res.S[i]
+			}
+		}
+	}
+	return res
+}
+
+func (fr *Frame) callWith0(st *State, c *ssa.CallCommon, args []Val, site ssa.Instruction) Val {
 	vc := fr.vc
 	if b, ok := c.Value.(*ssa.Builtin); ok {
 		return fr.builtin(st, b, c, args, site)
@@ -148,12 +183,18 @@ func (fr *Frame) callWith(st *State, c *ssa.CallCommon, args []Val, site ssa.Ins
 		}
 	}
 	if callee != nil && fr.canInline(callee) {
-		res, ok := vc.inlineCallFrom(fr, st, callee, args, freeVars)
-		if !ok {
-			st.pc = tFalse
-			return vc.zeroValOrEmpty(rt)
+		saved := st.clone()
+		res, ok, rejected := fr.tryInline(st, callee, args, freeVars)
+		if rejected == "" {
+			if !ok {
+				st.pc = tFalse
+				return vc.zeroValOrEmpty(rt)
+			}
+			return res
 		}
-		return res
+		// the callee is outside the modelled subset: treat it as unknown code
+		st.pc, st.v = saved.pc, saved.v
+		vc.notes["callee "+key+" not inlined ("+rejected+")"] = true
 	}
 	// unknown callee
 	if key == "" {
@@ -166,7 +207,14 @@ func (fr *Frame) callWith(st *State, c *ssa.CallCommon, args []Val, site ssa.Ins
 		return res
 	}
 	vc.notes["havoc at call to "+key] = true
-	vc.havocAll(st)
+	if len(vc.labels) > 0 && !vc.p.mayReachCounted(c, callee, vc.labels) {
+		vc.havocHeap(st)
+	} else {
+		if len(vc.labels) > 0 {
+			vc.notes["call counters forgotten at call to "+key+" (may reach a counted function)"] = true
+		}
+		vc.havocAll(st)
+	}
 	res := vc.freshVal("r."+shortCallee(key), rt)
 	vc.assume(st, vc.wellTyped(st, res))
 	return res
@@ -215,6 +263,9 @@ func scalarOnly(sig *types.Signature) bool {
 func (fr *Frame) bumpCounters(st *State, key string) {
 	vc := fr.vc
 	for _, lab := range vc.p.countOf[key] {
+		if !vc.labels[lab] {
+			continue
+		}
 		k := "g.calls." + lab
 		vc.ensureKey(k, "Int")
 		vc.set(st, k, tAdd(vc.get(st, k), "1"))
@@ -245,6 +296,22 @@ func (fr *Frame) canInline(fn *ssa.Function) bool {
 }
 
 func (fr *Frame) parent() *Frame { return fr.up }
+
+// tryInline inlines a callee; a callee outside the modelled subset is reported
+// through the third result instead of aborting the caller's verification.
+func (fr *Frame) tryInline(st *State, callee *ssa.Function, args []Val, freeVars []Val) (res Val, ok bool, rejected string) {
+	defer func() {
+		if r := recover(); r != nil {
+			if u, isU := r.(unsupported); isU {
+				rejected = u.msg
+				return
+			}
+			panic(r)
+		}
+	}()
+	res, ok = fr.vc.inlineCallFrom(fr, st, callee, args, freeVars)
+	return res, ok, ""
+}
 
 func (vc *VC) inlineCallFrom(fr *Frame, st *State, fn *ssa.Function, args []Val, freeVars []Val) (Val, bool) {
 	nf := vc.newFrame(fn, fr.depth+1)
@@ -334,7 +401,13 @@ func (vc *VC) runInline(nf *Frame, st *State, fn *ssa.Function, args []Val, free
 }
 
 // havocAll forgets the heap, maps and allocation state (unknown callee).
-func (vc *VC) havocAll(st *State) {
+func (vc *VC) havocAll(st *State) { vc.havocAllOpt(st, true) }
+
+// havocHeap forgets heap, maps and allocation state but keeps the ghost call
+// counters (the callee provably reaches no counted function).
+func (vc *VC) havocHeap(st *State) { vc.havocAllOpt(st, false) }
+
+func (vc *VC) havocAllOpt(st *State, counters bool) {
 	if vc.inQuant > 0 {
 		vc.reject("call with unknown effects inside a quantified specification")
 	}
@@ -365,7 +438,7 @@ func (vc *VC) havocAll(st *State) {
 	na := vc.get(st, vc.allocKey())
 	vc.assumeRaw(tLe(oldAlloc, na))
 	for k := range vc.keySort {
-		if strings.HasPrefix(k, "g.calls.") {
+		if strings.HasPrefix(k, "g.calls.") && counters {
 			o := vc.get(st, k)
 			n := vc.havocKey(st, k)
 			vc.assumeRaw(tLe(o, n))
@@ -375,7 +448,7 @@ func (vc *VC) havocAll(st *State) {
 
 func isHeapKey(k string) bool {
 	return k == "alloc" || k == "MLen" || strings.HasPrefix(k, "MD_") || strings.HasPrefix(k, "MV") ||
-		(len(k) == 2 && k[0] == 'H')
+		(len(k) == 2 && k[0] == 'H' && k != "HM") // HM: ghost lock state, kept across unknown calls
 }
 
 // ---------------------------------------------------------------------------
@@ -451,7 +524,11 @@ func (fr *Frame) applyContract(st *State, ct *Contract, callee *ssa.Function, si
 	old := st.clone()
 	// havoc the footprint
 	if !ct.HasMod {
-		vc.havocAll(st)
+		if len(vc.labels) > 0 && callee != nil && !vc.p.mayReachCounted(nil, callee, vc.labels) {
+			vc.havocHeap(st)
+		} else {
+			vc.havocAll(st)
+		}
 	} else {
 		targets := env.modTargets(ct.Modifies)
 		vc.havocTargets(st, targets)
@@ -465,9 +542,103 @@ func (fr *Frame) applyContract(st *State, ct *Contract, callee *ssa.Function, si
 	post := &SEnv{vc: vc, fr: fr, fn: envFn, cur: st, old: old, vars: env.vars, ct: ct, assumeMode: true}
 	post.results = splitResults(vc, res, sig)
 	for _, en := range ct.Ensures {
+		if mentionsCallHistory(en.Expr) {
+			continue // about the callee's own call history: not visible to callers
+		}
 		vc.assume(st, post.evalBool(en.Expr))
 	}
 	return res
+}
+
+// mentionsCallHistory: the expression uses calls(L) or last(L).
+func mentionsCallHistory(x SExpr) bool {
+	found := false
+	var walk func(x SExpr)
+	walk = func(x SExpr) {
+		switch x := x.(type) {
+		case *SCall:
+			if id, ok := x.Fun.(*SIdent); ok && (id.Name == "calls" || id.Name == "last") {
+				found = true
+			}
+			walk(x.Fun)
+			for _, a := range x.Args {
+				walk(a)
+			}
+		case *SBin:
+			walk(x.L)
+			walk(x.R)
+		case *SUn:
+			walk(x.X)
+		case *SSel:
+			walk(x.X)
+		case *SIndex:
+			walk(x.X)
+			walk(x.I)
+		case *SSlice:
+			walk(x.X)
+		case *SQuant:
+			walk(x.Body)
+		case *SCond:
+			walk(x.C)
+			walk(x.A)
+			walk(x.B)
+		}
+	}
+	walk(x)
+	return found
+}
+
+// historyLabels collects the labels used by calls(L)/last(L) in a contract.
+func historyLabels(ct *Contract) map[string]bool {
+	out := map[string]bool{}
+	var walk func(x SExpr)
+	walk = func(x SExpr) {
+		switch x := x.(type) {
+		case *SCall:
+			if id, ok := x.Fun.(*SIdent); ok && (id.Name == "calls" || id.Name == "last") && len(x.Args) == 1 {
+				if l, ok := x.Args[0].(*SIdent); ok {
+					out[l.Name] = true
+				}
+			}
+			walk(x.Fun)
+			for _, a := range x.Args {
+				walk(a)
+			}
+		case *SBin:
+			walk(x.L)
+			walk(x.R)
+		case *SUn:
+			walk(x.X)
+		case *SSel:
+			walk(x.X)
+		case *SIndex:
+			walk(x.X)
+			walk(x.I)
+		case *SSlice:
+			walk(x.X)
+		case *SQuant:
+			walk(x.Body)
+		case *SCond:
+			walk(x.C)
+			walk(x.A)
+			walk(x.B)
+		}
+	}
+	for _, c := range ct.Requires {
+		walk(c.Expr)
+	}
+	for _, c := range ct.Ensures {
+		walk(c.Expr)
+	}
+	for _, ca := range ct.CallAsrt {
+		walk(ca.Clause.Expr)
+	}
+	for _, ls := range ct.Loops {
+		for _, c := range ls.Invariants {
+			walk(c.Expr)
+		}
+	}
+	return out
 }
 
 func splitResults(vc *VC, res Val, sig *types.Signature) []Val {
@@ -679,7 +850,7 @@ func (vc *VC) havocTargets(st *State, ts []modTarget) {
 			hasType = true
 		}
 		if t.kind == "all" {
-			vc.havocAll(st)
+			vc.havocHeap(st) // "modifies heap": everything but the ghost call history
 			return
 		}
 	}
